@@ -130,6 +130,29 @@ class Allocator:
         if shape == "reversed":
             c = self.take(n, "contiguous")
             return c[::-1]
+        if shape == "ends-fixed":
+            # S118: the chain starts at the lowest and ends at the highest sector of a span of exactly n sectors, but
+            # the inner sectors are linked in another order - or lie outside the span altogether
+            blk = None
+            for i in range(len(self.free) - n + 1):
+                c = self.free[i : i + n]
+                if c[-1] - c[0] == n - 1:
+                    blk = c
+                    break
+            if n < 4 or blk is None:
+                shape = "random"
+            else:
+                others = [f for f in self.free if f != blk[0] and f != blk[-1]]
+                if rng.random() < 0.5 and len(others) >= n - 2:
+                    inner = rng.sample(others, n - 2)
+                else:
+                    inner = blk[1:-1]
+                while inner == sorted(inner):
+                    rng.shuffle(inner)
+                picks = [blk[0]] + inner + [blk[-1]]
+                for p_ in picks:
+                    self.free.remove(p_)
+                return picks
         if shape in ("rotl", "hi-lo"):
             picks = sorted(rng.sample(self.free, n))
             if n > 1:
@@ -169,7 +192,7 @@ class Allocator:
             self.words[s] = flag
 
 
-def serialize(disc: Disc, rng, shapes=("contiguous", "reversed", "random", "sorted", "head-not-lowest", "rotl", "hi-lo")) -> Tuple[bytes, dict]:
+def serialize(disc: Disc, rng, shapes=("contiguous", "reversed", "random", "sorted", "head-not-lowest", "rotl", "hi-lo", "ends-fixed")) -> Tuple[bytes, dict]:
     """-> image bytes, info (chains chosen per file, for coverage statistics)."""
     out = bytearray()
     info = {"chains": [], "dir_modes": [], "exact_fill": 0, "head_not_lowest": 0, "files": []}
